@@ -12,19 +12,22 @@ from qv.engine import DB, MonoGraph  # noqa: E402
 
 
 class Ctx:
-    def __init__(self, tier, repo=None):
+    def __init__(self, tier, repo=None, config="default"):
         self.tier = tier
+        self.config = config
         self.repo = repo or facts.REPO
         self._dbs = {}
         self._syn = {}
         self._dirs = {}
 
-    def facts_dir(self, config="default"):
+    def facts_dir(self, config=None):
+        config = config or self.config
         if config not in self._dirs:
             self._dirs[config] = facts.ensure_facts(config, self.repo)
         return self._dirs[config]
 
-    def db(self, crate="quil_rs", config="default"):
+    def db(self, crate="quil_rs", config=None):
+        config = config or self.config
         key = (crate, config)
         if key not in self._dbs:
             raw = facts.load_raw(self.facts_dir(config), crate)
@@ -33,7 +36,8 @@ class Ctx:
             self._dbs[key] = DB(raw)
         return self._dbs[key]
 
-    def mono(self, crate="quil_rs", config="default"):
+    def mono(self, crate="quil_rs", config=None):
+        config = config or self.config
         key = ("mono", crate, config)
         if key not in self._dbs:
             raw = facts.load_mono(self.facts_dir(config), crate)
@@ -42,7 +46,8 @@ class Ctx:
             self._dbs[key] = MonoGraph(raw, self.db(crate, config))
         return self._dbs[key]
 
-    def syn(self, config="default"):
+    def syn(self, config=None):
+        config = config or self.config
         if config not in self._syn:
             from qv.synq import Syn
 
@@ -62,10 +67,28 @@ def main(argv=None):
     t0 = time.time()
     if a.repo:
         facts.REPO = a.repo
-    ctx = Ctx(tier, a.repo)
     mod = importlib.import_module("qv.props.%s" % a.prop.lower())
+    # quick: the default feature set.  thorough: every feature configuration that builds offline is analysed and the
+    # verdicts are merged (a violation in any configuration is a violation; counts are those of the default one).
+    configs = ["default"] + (sorted(c for c in facts.CONFIGS if c != "default") if tier == "thorough" else [])
+    res = None
     try:
-        res = mod.run(ctx)
+        for cfg in configs:
+            r = mod.run(Ctx(tier, a.repo, cfg))
+            r.analysed.setdefault("configurations", []).append(cfg)
+            if res is None:
+                res = r
+            else:
+                res.analysed["configurations"].append(cfg)
+                res.sites += r.sites
+                for f in r.findings:
+                    if not any(g.key == f.key for g in res.findings):
+                        res.findings.append(f)
+                res.undecided += [u for u in r.undecided if u not in res.undecided]
+                for k, v in r.counts.items():
+                    res.counts["%s@%s" % (k, cfg)] = v
+                    if k in r.floors:
+                        res.floors["%s@%s" % (k, cfg)] = r.floors[k]
     except facts.BuildError as e:
         print("INCONCLUSIVE: /repo does not build on the analysis toolchain; no facts, no verdict.\n%s" % e)
         return 2
